@@ -793,19 +793,30 @@ impl World {
         verif::gate_release("bcast");
         self.s.quiesce().await?;
         let id = self.subs[idx].id;
+        // precondition of the expiry: no listener left - the creating subscriber and every
+        // attached client hang up first (a stalled catch-up would keep the subscription alive)
+        self.subs[idx].body = http_body_util::Empty::<Bytes>::new().map_err(|e| match e {}).boxed_unsync();
+        for c in self.clients.iter_mut().filter(|c| c.sub == idx) {
+            let (_tx, rx) = tokio::sync::mpsc::channel(1);
+            c.rx = rx;
+            c.ended = true;
+        }
+        tokio::task::yield_now().await;
         let Some(handle) = self.s.agent.subs_manager().remove(&id) else {
             return Ok(Ok(()));
         };
+        let loops_before = verif::matcher_loops_done();
         handle.cleanup().await;
-        // its task ends by itself (the candidates channel closes with it)
+        // its task ends once every handle is gone (the forwarders of attached streams drop
+        // theirs when they see the cancellation)
+        drop(handle);
         let start = Instant::now();
-        while !handle.changes_tx().is_closed() {
-            if start.elapsed() > Duration::from_secs(30) {
+        while verif::matcher_loops_done() == loops_before {
+            if start.elapsed() > Duration::from_secs(60) {
                 return Ok(Err(vio("C13", "cancelled-subscription-task-never-ended", json!({"sql": self.subs[idx].sql}))));
             }
             tokio::time::sleep(Duration::from_micros(200)).await;
         }
-        drop(handle);
         let state = self.sub_state_on_disk(&self.s.dir.clone(), id);
         self.log.push(format!("expire {}: state on disk {state:?}", self.subs[idx].sql));
         self.stats.fault("subscription-cancelled-for-lack-of-listeners");
